@@ -149,6 +149,14 @@ type runOpts struct {
 	ProtoPaths     []string
 	SubdirRewrites map[string]string
 	Subdirs        []string
+	Package        string // proto package (default "protoconf")
+}
+
+func (o runOpts) pkg() string {
+	if o.Package != "" {
+		return o.Package
+	}
+	return "protoconf"
 }
 
 var quietLog = &log.Options{Mode: "SIMPLE", Level: "FATAL", Sink: "CONSOLE"}
@@ -171,9 +179,9 @@ func (w *workspace) genProto(o runOpts, paths ...string) error {
 		setters = append(setters, options.LocationName(o.LocationName))
 	}
 	if len(paths) > 0 {
-		return tableau.NewProtoGenerator("protoconf", w.In, w.Proto, setters...).Generate(paths...)
+		return tableau.NewProtoGenerator(o.pkg(), w.In, w.Proto, setters...).Generate(paths...)
 	}
-	return tableau.GenProto("protoconf", w.In, w.Proto, setters...)
+	return tableau.GenProto(o.pkg(), w.In, w.Proto, setters...)
 }
 
 func (w *workspace) genConf(o runOpts, paths ...string) error {
@@ -201,9 +209,9 @@ func (w *workspace) genConf(o runOpts, paths ...string) error {
 	}
 	setters = append(setters, options.LocationName(loc))
 	if len(paths) > 0 {
-		return tableau.NewConfGenerator("protoconf", w.In, w.Conf, setters...).Generate(paths...)
+		return tableau.NewConfGenerator(o.pkg(), w.In, w.Conf, setters...).Generate(paths...)
 	}
-	return tableau.GenConf("protoconf", w.In, w.Conf, setters...)
+	return tableau.GenConf(o.pkg(), w.In, w.Conf, setters...)
 }
 
 // snapshot returns relative path -> sha256 for every file below dir.
